@@ -154,3 +154,120 @@ def doc_elems(data):
 
 def doc_sexp(data):
     return '(' + ' '.join(elem_sexp(e, True) for e in doc_elems(data)) + ')'
+
+
+# ---------------------------------------------------------------------------------------------
+# JSON (C09): the same objects, attribute values as tagged atoms; documents as JSON value S-expressions
+
+import json as _json
+
+
+def jatom(f, v):
+    """the atom `to_dict` writes for one attribute value: n<number text> / b<true|false> / s<string>"""
+    if v is None:
+        return None
+    py = getattr(f._eType, 'eType', None)
+    if hasattr(v, 'name') and hasattr(f._eType, 'eLiterals'):
+        return 's' + v.name
+    if py in (int, float, bool, str):
+        return jnative(v)
+    return 's' + f._eType.to_string(v)
+
+
+def jnative(v):
+    if isinstance(v, bool):
+        return 'b' + ('true' if v else 'false')
+    if isinstance(v, (int, float)):
+        return 'n' + _json.dumps(v)
+    return 's' + str(v)
+
+
+def jslot_sexp(o, f, roots, value):
+    n = enc(f.name)
+    if value is None:
+        return f'(none {n})'
+    if f.is_attribute:
+        if hasattr(f._eType, 'eType') and f._eType.eType is dict:
+            return None
+        if f.many:
+            return f'(aN {n}' + ''.join(' ' + enco(jatom(f, v)) for v in value) + ')'
+        return f'(a1 {n} {enc(jatom(f, value))})'
+    if f.containment:
+        return f'(kids {n})'
+    if f.many:
+        return f'(rN {n}' + ''.join(' ' + path_of(unwrap(t), roots) for t in value) + ')'
+    return f'(r1 {n} {path_of(unwrap(value), roots)})'
+
+
+def jsnode(o, classes, roots, use_uuid=True):
+    cf = o.eContainmentFeature()
+    via = cf.name if cf is not None else ''
+    cid = next(i for i, c in enumerate(classes) if c is o.eClass)
+    slots, kids = [], []
+    for f in o._isset:
+        v = o.eGet(f)
+        s = jslot_sexp(o, f, roots, v)
+        if s is None:
+            continue
+        slots.append(s)
+        if not f.is_attribute and f.containment and v is not None and kind_of(f) == 'cont':
+            for ch in (v if f.many else [v]):
+                kids.append(jsnode(ch, classes, roots, use_uuid))
+    uid = o._internal_id if (use_uuid and o._internal_id) else ''
+    return f"(n {enc(via)} {cid} {enc(uid)} ({' '.join(slots)}) ({' '.join(kids)}))"
+
+
+def jnormal_form(o, classes, roots, use_uuid):
+    cf = o.eContainmentFeature()
+    via = cf.name if cf is not None else ''
+    cid = next(i for i, c in enumerate(classes) if c is o.eClass)
+    slots, kids = [], []
+    for f in o.eClass.eAllStructuralFeatures():
+        k = kind_of(f)
+        if k == 'skip':
+            continue
+        v = o.eGet(f)
+        if k == 'cont':
+            if v is not None:
+                for ch in (v if f.many else [v]):
+                    kids.append(jnormal_form(ch, classes, roots, use_uuid))
+            continue
+        slots.append(jslot_sexp(o, f, roots, v))
+    uid = o._internal_id if (use_uuid and o._internal_id) else ''
+    return f"(n {enc(via)} {cid} {enc(uid)} ({' '.join(slots)}) ({' '.join(kids)}))"
+
+
+def jmm_lines(classes):
+    """as mm_lines, but a class is named by what `serialize_eclass` writes and defaults are atoms"""
+    out = ['reset']
+    idx = {id(c): i for i, c in enumerate(classes)}
+    for i, c in enumerate(classes):
+        fs = []
+        for f in c.eAllStructuralFeatures():
+            k = kind_of(f)
+            d = '-'
+            if k == 'attr' and not f.many:
+                dv = f.get_default_value()
+                d = '-' if dv is None else enc(jatom(f, dv))
+            t = idx.get(id(f._eType), 0) if k in ('ref', 'cont') else 0
+            fl = 1 if (k == 'attr' and getattr(f._eType, 'eType', None) is float) else 0
+            fs.append(f"{enc(f.name)}:{k}:{1 if f.many else 0}:{d}:{t}:{1 if (k == 'attr' and f.iD) else 0}:{fl}")
+        uri = f'{c.eRoot().nsURI}{c.eURIFragment()}'
+        out.append(f'class {i} {enc(uri)} ' + ' '.join(fs))
+    return out
+
+
+def jv_sexp(v):
+    if v is None:
+        return '(null)'
+    if isinstance(v, list):
+        return '(arr' + ''.join(' ' + jv_sexp(x) for x in v) + ')'
+    if isinstance(v, dict):
+        return '(obj' + ''.join(f' ({enc(k)} {jv_sexp(x)})' for k, x in v.items()) + ')'
+    return f'(a {enc(jnative(v))})'
+
+
+def jdoc_sexp(data):
+    d = _json.loads(data.decode('utf-8'))
+    roots = d if isinstance(d, list) else [d]
+    return '(' + ' '.join(jv_sexp(r) for r in roots) + ')'
